@@ -108,6 +108,75 @@ def shard(idx, seed, n, known):
     return part.to_dict()
 
 
+def switch_cases():
+    """Every #switch over keys a/b/c with up to 4 cases (bare fall-through
+    keys and key=result pairs in every order) x every tail x every value."""
+    import itertools
+
+    items = [["bare", k] for k in "abc"] + [["case", k, None] for k in "abc"]
+    tails = [None, ["default", [["T", "D"]]], ["last", [["T", "L"]]]]
+    for n in range(5):
+        for combo in itertools.product(items, repeat=n):
+            cases = []
+            for i, c in enumerate(combo):
+                cases.append(c if c[0] == "bare"
+                             else ["case", c[1], [["T", f"r{i}"]]])
+            for tail in tails:
+                for val in ("a", "b", "z", ""):
+                    yield cases, tail, val
+
+
+def switch_shard(idx, nshards, quick, known):
+    env.setup()
+    part = Part()
+    ctx = env.new_ctx()
+    ctx.add_page("Template:sw1", 10, "{{{1}}}")
+    ctx.start_page("Test page")
+    buckets = {}
+    try:
+        for j, (cases, tail, val) in enumerate(switch_cases()):
+            if j % nshards != idx:
+                continue
+            forms = [[["T", val]]]
+            if (j // nshards) % (5 if quick else 1) == 0:
+                forms.append([["T", " " + val + "\n"]])
+                forms.append([["P", "1", [["T", val]]]])
+            for v in forms:
+                page = [["SW", v, cases, tail]]
+                text = exp.render(page)
+                want, it = rt.evaluate(page, {})
+                bare_run = 0
+                fall = False
+                for c in cases:
+                    bare_run = bare_run + 1 if c[0] == "bare" else 0
+                    fall = fall or bare_run >= 2
+                part.case(h(text), fall, classes=["switch-enumerated"]
+                          + (["switch-fallthrough-group"] if fall else []),
+                          sample={"page": text})
+                try:
+                    got = ctx.expand(text)
+                except Exception as e:
+                    sig = {"kind": "exception", **exc_bucket(e)}
+                    what = exc_text(e)
+                else:
+                    if got == want:
+                        continue
+                    sig = {"kind": "mismatch", "class": "switch"}
+                    what = f"expand({text!r})={got!r} reference={want!r}"
+                key = str(sorted(sig.items()))
+                if key not in buckets or len(text) < buckets[key][3]:
+                    buckets[key] = (sig, what, {"lib": {}, "page": page,
+                                                "text": text}, len(text))
+    finally:
+        ctx.close_db_conn()
+    for sig, what, rep, _ in buckets.values():
+        if any(sig_matches(k["signature"], sig) for k in known):
+            part.excluded["known"] += 1
+            continue
+        part.violation(sig, what, rep)
+    return part.to_dict()
+
+
 def run(run):
     procs = par.nprocs(run.tier)
     if run.tier == "quick":
@@ -117,7 +186,15 @@ def run(run):
     for d in par.map_shards(shard, [(i, run.seed, n, run.known)
                                     for i in range(shards)], procs):
         run.merge(d)
+    for d in par.map_shards(switch_shard,
+                            [(i, procs, run.tier == "quick", run.known)
+                             for i in range(procs)], procs):
+        run.merge(d)
     run.rule = (
+        "Exhaustively, every #switch over three keys with up to four cases "
+        "(bare fall-through keys and key=result pairs in every order) x "
+        "{no tail, #default, trailing bare default} x matching / unmatched / "
+        "empty values (plain, blank-padded, through a parameter default); "
         "Hypothesis-generated (template library <=5 templates with DAG call "
         "graph and inclusion-control wrappers, page) pairs from the expansion "
         "AST grammar (depth <=4); oracle: Wtp.expand(render(page)) == "
